@@ -312,6 +312,13 @@ fn owners(h: &History) -> (Vec<u8>, Vec<u8>, std::collections::BTreeMap<(u8, u16
                 }
             }
             Ev::Attach { sink, .. } => own[i] = *sink,
+            Ev::Owner { pup, inst, owner } => {
+                // the puppet's own record of the subscription it was created for
+                let k = per_owner.entry((*pup, *owner)).or_default();
+                inst_owner.insert((*pup, *inst), (*owner, *k));
+                *k += 1;
+                own[i] = *owner;
+            }
             _ => own[i] = cur,
         }
     }
@@ -366,7 +373,7 @@ fn project(h: &History, tag: u8) -> Vec<NEv> {
             Ev::Call { kind, id, arg, ret } => out.push(NEv::Call(format!("{kind:?}#{id}({arg:?})={ret:?}"))),
             Ev::Panic { message, .. } => out.push(NEv::Panic(message.clone())),
             Ev::Attach { sub, .. } => out.push(NEv::Attach(format!("S.{sub}"))),
-            Ev::Step { .. } => {}
+            Ev::Step { .. } | Ev::Owner { .. } => {}
         }
     }
     out
